@@ -285,7 +285,9 @@ def _hyp_history(seed: int, n: int) -> Report:
     from hypothesis import given, settings, strategies as st, HealthCheck
 
     rep = Report()
-    item = st.tuples(st.binary(min_size=1, max_size=8), st.sampled_from(ADDRS))
+    valid = st.sampled_from([bytes.fromhex(x) for x in ("dc102030aabb", "32dc102030aabb", "30f08010203040", "21fb80102030", "0c123456",
+                                                        "08550800", "32a010", "e90410", "ccf1f2", "0312345f")])
+    item = st.tuples(st.one_of(st.binary(min_size=1, max_size=8), valid), st.sampled_from(ADDRS))
 
     def summary(data: bytes, addr: int) -> Any:
         r = consumers(data, addr)
@@ -298,6 +300,16 @@ def _hyp_history(seed: int, n: int) -> Report:
     def prop(items: List[Tuple[bytes, int]], d: Any) -> None:
         first: Dict[Tuple[bytes, int], Any] = {}
         order = list(items)
+        # near-duplicates: same address, same leading bytes, one later byte changed (a cache keyed on too short a
+        # prefix of the bytes, or on the address alone, answers for the earlier string)
+        for _ in range(d.draw(st.integers(0, 4))):
+            base, baddr = order[d.draw(st.integers(0, len(order) - 1))]
+            base = base + bytes(d.draw(st.integers(0, 3)))  # optionally longer, so that late positions exist
+            pos = d.draw(st.integers(0, len(base) - 1))
+            var = bytearray(base)
+            var[pos] = (var[pos] ^ d.draw(st.integers(1, 255))) & 0xFF
+            order.append((base, baddr))
+            order.append((bytes(var), baddr))
         # history = decode all, then re-decode in a generated permutation order
         for data, addr in order:
             first.setdefault((data, addr), summary(data, addr))
